@@ -41,6 +41,9 @@ class StaticCase:
         # (the same physical equation of state whatever the file order: equilibrium just below the largest volume, bulk modulus k0 there)
         veq = float(self.vol.max()) / (1.0 + 2.0 * veq_f) ** 1.5
         self.e0, self.c2, self.f0 = -rng.uniform(50, 300), 4.5 * k0 * veq * (veq / self.v0) ** (4.0 / 3.0), float(eulerian(self.v0, veq))
+        # a cubic term in half of the cases: then the data are not their own second-order fit, and a fit of another order shows
+        self.c3 = float(self.c2 * rng.uniform(-1.5, 1.5)) if rng.random() < 0.5 else 0.0
+        self._coef = None
         self.mass = float(rng.uniform(40, 300))
         self.system = system
         e = exports[system or "triclinic"]
@@ -56,15 +59,27 @@ class StaticCase:
         self.svol = numpy.linspace(self.vol.max() * rng.uniform(0.98, 1.02), self.vol.min() * rng.uniform(0.98, 1.02), int(rng.integers(5, 9)))
         self.sv0 = self.svol[0]
 
-    def energy(self, v):
+    def tabulated_energy(self, v):
+        """the energies written to INPUT01: quadratic in the Eulerian strain, in half of the cases with a cubic term on top"""
         f = eulerian(self.v0, numpy.asarray(v, dtype=float))
-        return self.e0 + self.c2 * (f - self.f0) ** 2
+        return self.e0 + self.c2 * (f - self.f0) ** 2 + self.c3 * f ** 3
+
+    def _fit(self):
+        # the SECOND-ORDER finite-strain least-squares fit of the tabulated energies (numpy.polyfit, degree 2 in the strain referred
+        # to the file's first volume) - for purely quadratic data it is the data's own parabola
+        if self._coef is None:
+            e = numpy.array([float("%.12f" % x) for x in self.tabulated_energy(self.vol)])
+            self._coef = numpy.polyfit(eulerian(self.v0, self.vol), e, 2)
+        return self._coef
+
+    def energy(self, v):
+        return numpy.polyval(self._fit(), eulerian(self.v0, numpy.asarray(v, dtype=float)))
 
     def pressure(self, v):
         v = numpy.asarray(v, dtype=float)
         f = eulerian(self.v0, v)
         dfdv = -(1.0 / 3.0) * (self.v0 / v) ** (2.0 / 3.0) / v
-        return -(2.0 * self.c2 * (f - self.f0)) * dfdv
+        return -numpy.polyval(numpy.polyder(self._fit()), f) * dfdv
 
     def modulus(self, k, v):
         f = eulerian(self.sv0, numpy.asarray(v, dtype=float))
@@ -74,7 +89,7 @@ class StaticCase:
     def write(self, d, supplied):
         lines = ["synthetic", "", f"{self.nv} 1 3 1 1", ""]
         for v in self.vol:
-            lines += [f"P= 0.0 V= {v:.10f} E= {float(self.energy(v)):.12f}", "0.0 0.0 0.0", "0.0", "0.0", "0.0"]
+            lines += [f"P= 0.0 V= {v:.10f} E= {float(self.tabulated_energy(v)):.12f}", "0.0 0.0 0.0", "0.0", "0.0", "0.0"]
         lines += ["", "weight", "0.0 0.0 0.0 1.0"]
         (d / "input01").write_text("\n".join(lines) + "\n")
         t = ["static table", f"{self.sv0:.6f} {len(self.svol)} {self.mass:.6f}", "V " + " ".join("c%d%d" % k for k in supplied)]
@@ -181,7 +196,8 @@ def main(ctx, replay=None):
                 bad = "rows are not the ntv equally spaced volumes"
             if mode == "pressure" and not numpy.allclose(col["P"], pmin + dp * stride * numpy.arange(nrows), rtol=2e-6, atol=1e-6):
                 bad = f"rows do not sit at the requested pressures (first {col['P'][:3].tolist()}, requested {[pmin, pmin + dp * stride]})"
-            Fexp = sc.energy(V) * consts.RY_TO_EV
+            # F: the fit at the reported V; in mode none the input energies themselves
+            Fexp = (sc.tabulated_energy(V) if mode == "none" else sc.energy(V)) * consts.RY_TO_EV
             # in pressure mode V and F are four-point interpolated from the ntv-point volume grid: accuracy ~ (1/ntv)^3 of the range
             fatol = 1e-6 + (float(numpy.ptp(Fexp)) * 20.0 / ntv ** 3 if mode == "pressure" else 0.0)
             if bad is None and not numpy.allclose(col["F"], Fexp, rtol=5e-6, atol=fatol):
@@ -242,8 +258,8 @@ def row_records(col, n):
         pd = bool(numpy.all(numpy.linalg.eigvalsh(C) > 1e-6))
         S = numpy.linalg.inv(C) if pd else numpy.zeros((6, 6))
         ci, si = numpy.rint(C * 10).astype(int), numpy.rint(S * 1e6).astype(int)
-        if numpy.max(numpy.abs(ci)) > 30000:
-            continue
+        if numpy.max(numpy.abs(ci)) > 30000 or float(numpy.max(numpy.abs(si))) * float(numpy.max(numpy.abs(ci))) * 6 >= 2 ** 31:
+            continue                     # (a nearly singular row: the products of the record would overflow TLC's 32-bit integers)
         islack = int(6 * (0.5 * numpy.max(numpy.abs(si)) + 0.5 * numpy.max(numpy.abs(ci))) + 6 + 1e7 * 2e-5 * 6)     # printed with 6 digits
         rho, vp, vs = col["density"][i], col["v_p"][i], col["v_s"][i]
         if not (pd and all(numpy.isfinite(col[c][i]) for c in ("bm_V", "bm_R", "bm_VRH", "G_V", "G_R", "G_VRH", "v_p", "v_s", "density"))):
